@@ -55,8 +55,10 @@ def gen(rng):
     for s in range(rng.randint(1, 3)):
         subs.append({"script": [rng.choice(["ok", "err"]) for _ in range(2)] + ["ok"],
                      "fate": rng.choice(["complete", "complete", "cancel_early", "cancel_late", "pending_at_drop"])})
-    return {"kind": kind, "subs": subs, "end": rng.choice(["shutdown", "drop", "drop", "exit"]), "drop_delay": rng.choice([0, 0, 1, 2]),
-            "manual": rng.random() < 0.6}
+    return {"kind": kind, "subs": subs, "end": rng.choice(["shutdown", "shutdown_nowait", "drop", "drop", "exit"]), "drop_delay": rng.choice([0, 0, 1, 2]),
+            "manual": rng.random() < 0.6,
+            # a cancel-on-shutdown layer on top (no thread of its own, but it keeps a set of the futures it returned)
+            "cos": rng.random() < 0.3}
 
 
 def execute(p, chooser):
@@ -82,6 +84,8 @@ def execute(p, chooser):
                 ex = Executors.with_throttle(base, 1)
             else:
                 ex = Executors.with_timeout(base, 50)
+            if p.get("cos"):
+                ex = Executors.with_cancel_on_shutdown(ex)
         worker = [t for t in det.S.threads.values() if t.name.startswith(PREFIX[k])][-1]
         refs = {}
         futs = {}
@@ -162,12 +166,15 @@ def execute(p, chooser):
                             fr = fr.f_back
                     del o
         end = p["end"]
-        if end == "shutdown":
+        if end in ("shutdown", "shutdown_nowait"):
             t0 = det.S.now
-            ex.shutdown(True)
+            ex.shutdown(end == "shutdown")
+            # shutdown() wakes the worker itself - with wait=False too: it must leave without a poll interval / back-off /
+            # re-check timer having to expire first
+            det.wait_until(lambda: worker.done or det.S.now > t0)
+            obs["shutdown_dt"] = 0 if worker.done else 1
+            det.wait_until(lambda: worker.done or det.S.now > 200)
             obs["thread_done"] = worker.done
-            # shutdown() wakes the worker itself: the join must not have to sit out a poll interval / back-off / re-check timer
-            obs["shutdown_dt"] = det.S.now - t0
         elif end == "exit":
             t0 = det.S.now
             mevent.GLOBAL_HANDLER.on_exiting()
@@ -233,8 +240,8 @@ def monitor(r, obs):
     if obs["thread_done"] is False:
         out.append({"what": "worker thread still alive after %s" % p["end"], "detail": str(p), "pattern": "reclaim:thread-alive:" + p["end"]})
     if obs.get("shutdown_dt") and obs["thread_done"]:
-        out.append({"what": "shutdown(wait=True) returned only %s virtual seconds later: the worker left when a later timer expired, not when shutdown() woke it"
-                            % obs["shutdown_dt"], "detail": str(p), "pattern": "reclaim:shutdown-late:" + p["kind"]})
+        out.append({"what": "after %s the worker only left when a later timer expired, not when shutdown() woke it" % p["end"],
+                    "detail": str(p), "pattern": "reclaim:shutdown-late:" + p["kind"]})
     if obs.get("exit_prompt") is False and obs["thread_done"]:
         out.append({"what": "the exit hook returned but the worker thread only left when a later timer expired", "detail": str(p),
                     "pattern": "reclaim:exit-late:" + p["kind"]})
